@@ -264,7 +264,7 @@ class BaseDensePauliString(raw_types.Gate, metaclass=abc.ABCMeta):
         if isinstance(other, (sympy.Basic, numbers.Number)):
             return self.__mul__(other)
 
-        if other := _try_interpret_as_dps(other):
+        if (other := _try_interpret_as_dps(other)) is not None:
             return other.__mul__(self)
 
         return NotImplemented
@@ -592,7 +592,7 @@ def _try_interpret_as_dps(v: cirq.Operation) -> BaseDensePauliString | None:
     for q in ps.qubits:
         pauli_mask[q.x] = pauli_string.PAULI_GATE_LIKE_TO_INDEX_MAP[ps[q]]
 
-    return DensePauliString(pauli_mask)
+    return DensePauliString(pauli_mask, coefficient=ps.coefficient)
 
 
 def _vectorized_pauli_mul_phase(lhs: int | np.ndarray, rhs: int | np.ndarray) -> complex:
